@@ -318,6 +318,7 @@ func (fr *Frame) havocResults(st *State, sig *types.Signature) []string {
 		t := sig.Results().At(i).Type()
 		r := fr.x.c.freshConst("res", fr.x.c.sortOf(t))
 		fr.x.assumeAllocatedDeep(st, t, r)
+		fr.x.typeSeparation(t, r)
 		res = append(res, r)
 	}
 	return res
